@@ -61,6 +61,7 @@ const (
 	vfC19MidRows   = 33 // 264 bytes: just over the externalisation threshold (thorough tier)
 	vfC19LargeRows = 64 // 512 bytes of int64
 	vfC19Threshold = 256
+	vfC19LogBytes  = 600 // a log message larger than a pointer batch and than the small caps
 )
 
 // vfC19Big: a batch of this many rows is externalised when storage is configured.
@@ -83,8 +84,9 @@ func (p *VfC19Prod) Produce(ctx context.Context, out *OutputCollector, cc *CallC
 
 // VfC19Exch emits one batch of Sizes[Pos] rows per Exchange.
 type VfC19Exch struct {
-	Sizes []int
-	Pos   int
+	Sizes    []int
+	Pos      int
+	LogBytes int // emit a log message of this many bytes before the data batch
 }
 
 func (p *VfC19Exch) Exchange(ctx context.Context, in arrow.RecordBatch, out *OutputCollector, cc *CallContext) error {
@@ -92,9 +94,22 @@ func (p *VfC19Exch) Exchange(ctx context.Context, in arrow.RecordBatch, out *Out
 	if p.Pos < len(p.Sizes) {
 		n = p.Sizes[p.Pos]
 	}
+	if p.LogBytes > 0 {
+		out.ClientLog(LogInfo, vfC19LogText(uint64(p.Pos+1), p.LogBytes))
+	}
 	b := vfC19Batch(uint64(p.Pos+1), n)
 	p.Pos++
 	return out.Emit(b)
+}
+
+// vfC19LogText is a high-entropy printable message of n bytes.
+func vfC19LogText(seed uint64, n int) string {
+	const hexd = "0123456789abcdef"
+	raw := vfC19Bytes(seed+100, n)
+	for i := range raw {
+		raw[i] = hexd[raw[i]&15]
+	}
+	return string(raw)
 }
 
 func init() {
@@ -311,6 +326,7 @@ type vfC19Cfg struct {
 	kind        string // unary | exchange | producer
 	sizes       []int  // rows per emitted batch (unary: one entry, bytes = rows*8)
 	limit       int    // producer batch limit
+	logBytes    int    // unary / exchange: size of the log message emitted before the data (0 = none)
 	compress    bool   // wire space: HTTP response compression; external space: storage compression
 	external    bool
 	wireCap     int64
@@ -325,13 +341,16 @@ func vfC19Run(c vfC19Cfg) []vfC19Turn {
 	mk := func() *Server {
 		s := NewServer()
 		Unary(s, "u", func(ctx context.Context, cc *CallContext, p VfXParams) ([]byte, error) {
+			if c.logBytes > 0 {
+				cc.ClientLog(LogInfo, vfC19LogText(7, c.logBytes))
+			}
 			return vfC19Bytes(7, int(p.X)), nil
 		})
 		Producer(s, "p", vfOutSchema, func(ctx context.Context, cc *CallContext, p VfXParams) (*StreamResult, error) {
 			return &StreamResult{OutputSchema: vfOutSchema, State: &VfC19Prod{Sizes: append([]int(nil), c.sizes...)}}, nil
 		})
 		Exchange(s, "e", vfOutSchema, vfInSchema, func(ctx context.Context, cc *CallContext, p VfXParams) (*StreamResult, error) {
-			return &StreamResult{OutputSchema: vfOutSchema, State: &VfC19Exch{Sizes: append([]int(nil), c.sizes...)}}, nil
+			return &StreamResult{OutputSchema: vfOutSchema, State: &VfC19Exch{Sizes: append([]int(nil), c.sizes...), LogBytes: c.logBytes}}, nil
 		})
 		if c.external {
 			ec := DefaultExternalLocationConfig(store)
@@ -435,7 +454,7 @@ func TestVerif_C19(t *testing.T) {
 	// allCfgs lists every (kind, compression, emission pattern, producer limit)
 	// up front so that the first choice point has a fixed arity and the shards
 	// get an even mix of cheap and expensive configurations.
-	allCfgs := func(limits []int, external bool) []vfC19Cfg {
+	allCfgs := func(limits []int, external bool, logSizes []int) []vfC19Cfg {
 		var out []vfC19Cfg
 		var patterns func(n int) [][]int
 		patterns = func(n int) [][]int {
@@ -452,17 +471,21 @@ func TestVerif_C19(t *testing.T) {
 		}
 		for _, comp := range []bool{false, true} {
 			for _, k := range kinds {
-				maxN, lims := 1, []int{0}
+				maxN, lims, logs := 1, []int{0}, logSizes
 				switch k {
 				case "exchange":
 					maxN = maxExch
 				case "producer":
-					maxN, lims = maxProd, limits
+					// logs inside capped producer turns are outside the statement's
+					// "one data batch" allowance and are not explored
+					maxN, lims, logs = maxProd, limits, []int{0}
 				}
 				for n := 1; n <= maxN; n++ {
 					for _, p := range patterns(n) {
 						for _, l := range lims {
-							out = append(out, vfC19Cfg{kind: k, compress: comp, sizes: p, limit: l, external: external})
+							for _, lg := range logs {
+								out = append(out, vfC19Cfg{kind: k, compress: comp, sizes: p, limit: l, external: external, logBytes: lg})
+							}
 						}
 					}
 				}
@@ -470,153 +493,165 @@ func TestVerif_C19(t *testing.T) {
 		}
 		return out
 	}
-	wireCfgs := allCfgs([]int{0, 3}, false)
-	extCfgs := allCfgs([]int{0, 1, 2}, true)
+	wireCfgs := allCfgs([]int{0, 3}, false, []int{0, vfC19LogBytes})
+	extCfgs := allCfgs([]int{0, 1, 2}, true, []int{0})
+	// wire cap while external storage is configured (storage compression off):
+	// externalised data leaves only a pointer on the wire, inline logs stay there
+	var wireExtCfgs []vfC19Cfg
+	for _, c := range allCfgs([]int{0, 3}, true, []int{0, vfC19LogBytes}) {
+		if !c.compress {
+			wireExtCfgs = append(wireExtCfgs, c)
+		}
+	}
 
 	// ------------------------------------------------------------------ wire cap
-	venum.Explore(t, venum.Cfg{Name: "wire-cap", Shardable: true}, func(x *venum.X) {
-		c := wireCfgs[x.Choose(len(wireCfgs), "kind*compression*pattern*limit")]
-		c.sizes = append([]int(nil), c.sizes...)
-		ref := vfC19Run(c)
-		pat := vfC19Pattern(c.sizes)
-		desc := func() string {
-			return fmt.Sprintf("kind=%s pattern=%s limit=%d compress=%v", c.kind, pat, c.limit, c.compress)
-		}
-		if b := vfC19FirstBroken(ref); b != "" || len(ref) == 0 {
-			x.Failf("C19:"+c.kind+":uncapped-run-broken", "%s: %s", desc(), b)
-			return
-		}
-		refData := vfC19AllData(ref)
-		for _, tr := range ref {
-			if len(tr.Errs) > 0 {
-				x.Failf("C19:"+c.kind+":uncapped-run-error", "%s: %v", desc(), tr.Errs)
+	wireBody := func(cfgs []vfC19Cfg, tag string) func(x *venum.X) {
+		return func(x *venum.X) {
+			c := cfgs[x.Choose(len(cfgs), "kind*compression*pattern*limit*logs")]
+			c.sizes = append([]int(nil), c.sizes...)
+			ref := vfC19Run(c)
+			pat := vfC19Pattern(c.sizes)
+			desc := func() string {
+				return fmt.Sprintf("kind=%s pattern=%s limit=%d compress=%v log-bytes=%d external-storage=%v", c.kind, pat, c.limit, c.compress, c.logBytes, c.external)
+			}
+			if b := vfC19FirstBroken(ref); b != "" || len(ref) == 0 {
+				x.Failf("C19:"+c.kind+":uncapped-run-broken", "%s: %s", desc(), b)
 				return
 			}
-		}
-
-		// caps placed relative to the reference sizes
-		var caps []int64
-		var capNames []string
-		jitter := int64(0)
-		switch c.kind {
-		case "unary":
-			u := int64(len(ref[0].Resp.Body))
-			caps, capNames = []int64{0, u - 1, u, u + 1, u * 5 / 2}, []string{"none", "body-1", "body", "body+1", "2.5x"}
-		case "exchange":
-			// the body holds a sealed cursor whose length may vary by a few
-			// bytes from run to run: stay 32 bytes clear of the boundary
-			u := int64(len(ref[0].Resp.Body))
-			jitter = 24
-			caps, capNames = []int64{0, u - 32, u + 32, u * 5 / 2}, []string{"none", "body-32", "body+32", "2.5x"}
-		case "producer":
-			first := int64(ref[0].Segs[ref[0].DataSegs[0]].End) // schema + first data batch
-			big := int64(0)
+			refData := vfC19AllData(ref)
 			for _, tr := range ref {
-				for _, di := range tr.DataSegs {
-					if l := int64(tr.Segs[di].End - tr.Segs[di].Start); l > big {
-						big = l
-					}
-				}
-			}
-			caps = []int64{0, first - 1, first, first + 1, int64(ref[0].SchemaLen) + big*5/2}
-			capNames = []string{"none", "1batch-1", "1batch", "1batch+1", "2.5batches"}
-		}
-		ci := x.Choose(len(caps), "cap")
-		c.wireCap = caps[ci]
-		got := vfC19Run(c)
-		cls := "C19:" + c.kind + ":max_response_bytes"
-		d := func() string { return fmt.Sprintf("%s cap=%s(%d)", desc(), capNames[ci], c.wireCap) }
-		if b := vfC19FirstBroken(got); b != "" || len(got) == 0 {
-			x.Failf(cls+":capped-run-broken", "%s: %s", d(), b)
-			return
-		}
-		var verdicts []string
-
-		if c.kind == "producer" {
-			gotData := vfC19AllData(got)
-			sawErr := false
-			for i, tr := range got {
 				if len(tr.Errs) > 0 {
-					sawErr = true
-					x.Failf(cls+":error-instead-of-continuation", "%s: response %d carries an error %v (the wire cap is soft for producers)", d(), i, tr.Errs)
-				}
-				// offset at which the last data batch of this response starts
-				pre, lastLen := 0, 0
-				if n := len(tr.DataSegs); n > 0 {
-					pre = tr.Segs[tr.DataSegs[n-1]].Start
-					lastLen = tr.Segs[tr.DataSegs[n-1]].End - pre
-				}
-				tokLen := 0
-				if tr.TokenSeg >= 0 {
-					tokLen = tr.Segs[tr.TokenSeg].End - tr.Segs[tr.TokenSeg].Start
-				}
-				over := c.wireCap > 0 && int64(pre) > c.wireCap
-				if over && c.compress {
-					// accept the reading "cap counts compressed wire bytes"
-					over = int64(len(tr.Resp.Wire)) > c.wireCap+int64(lastLen+tokLen+8)
-				}
-				verdicts = append(verdicts, fmt.Sprintf("r%d:data=%d:tok=%v:over=%v", i, len(tr.DataSegs), tr.TokenSeg >= 0, over))
-				if over {
-					sig := cls + ":overshoot-more-than-one-batch"
-					if c.limit > 0 {
-						sig += ":with-batch-limit"
-					}
-					x.Failf(sig, "%s: response %d holds %d data batches; %d body bytes precede the last one (cap %d, body %d bytes, wire %d bytes) — the response kept growing after the cap was passed",
-						d(), i, len(tr.DataSegs), pre, c.wireCap, len(tr.Resp.Body), len(tr.Resp.Wire))
+					x.Failf("C19:"+c.kind+":uncapped-run-error", "%s: %v", desc(), tr.Errs)
+					return
 				}
 			}
-			if !sawErr && !vfHSEq(refData, gotData) {
-				x.Failf(cls+":stream-incomplete", "%s: concatenated turns %v != full stream %v", d(), gotData, refData)
-			}
-			x.Outcome("%s|%s|%s|resp=%d|%s", c.kind, pat, capNames[ci], len(got), strings.Join(verdicts, ","))
-			return
-		}
 
-		// unary / exchange: hard cap
-		for i, tr := range got {
-			if i >= len(ref) {
-				break
+			// caps placed relative to the reference sizes
+			var caps []int64
+			var capNames []string
+			jitter := int64(0)
+			switch c.kind {
+			case "unary":
+				u := int64(len(ref[0].Resp.Body))
+				caps, capNames = []int64{0, u / 3, u - 1, u, u + 1, u * 5 / 2}, []string{"none", "body/3", "body-1", "body", "body+1", "2.5x"}
+			case "exchange":
+				// the body holds a sealed cursor whose length may vary by a few
+				// bytes from run to run: stay 32 bytes clear of the boundary
+				u := int64(len(ref[0].Resp.Body))
+				jitter = 24
+				caps, capNames = []int64{0, u / 3, u - 32, u + 32, u * 5 / 2}, []string{"none", "body/3", "body-32", "body+32", "2.5x"}
+			case "producer":
+				first := int64(ref[0].Segs[ref[0].DataSegs[0]].End) // schema + first data batch
+				big := int64(0)
+				for _, tr := range ref {
+					for _, di := range tr.DataSegs {
+						if l := int64(tr.Segs[di].End - tr.Segs[di].Start); l > big {
+							big = l
+						}
+					}
+				}
+				caps = []int64{0, first - 1, first, first + 1, int64(ref[0].SchemaLen) + big*5/2}
+				capNames = []string{"none", "1batch-1", "1batch", "1batch+1", "2.5batches"}
 			}
-			u := int64(len(ref[i].Resp.Body)) // what the body would be
-			w := int64(len(ref[i].Resp.Wire)) // ... on the wire (== u without compression)
-			wj := jitter
-			if c.compress {
-				wj = 2 * jitter
+			ci := x.Choose(len(caps), "cap")
+			c.wireCap = caps[ci]
+			got := vfC19Run(c)
+			cls := "C19:" + c.kind + ":max_response_bytes" + tag
+			d := func() string { return fmt.Sprintf("%s cap=%s(%d)", desc(), capNames[ci], c.wireCap) }
+			if b := vfC19FirstBroken(got); b != "" || len(got) == 0 {
+				x.Failf(cls+":capped-run-broken", "%s: %s", d(), b)
+				return
 			}
-			delivered := len(tr.Errs) == 0
-			verdicts = append(verdicts, fmt.Sprintf("t%d:delivered=%v", i, delivered))
-			if c.wireCap == 0 {
-				if !delivered {
-					x.Failf(cls+":error-without-cap", "%s: turn %d: %v", d(), i, tr.Errs)
+			var verdicts []string
+
+			if c.kind == "producer" {
+				gotData := vfC19AllData(got)
+				sawErr := false
+				for i, tr := range got {
+					if len(tr.Errs) > 0 {
+						sawErr = true
+						x.Failf(cls+":error-instead-of-continuation", "%s: response %d carries an error %v (the wire cap is soft for producers)", d(), i, tr.Errs)
+					}
+					// offset at which the last data batch of this response starts
+					pre, lastLen := 0, 0
+					if n := len(tr.DataSegs); n > 0 {
+						pre = tr.Segs[tr.DataSegs[n-1]].Start
+						lastLen = tr.Segs[tr.DataSegs[n-1]].End - pre
+					}
+					tokLen := 0
+					if tr.TokenSeg >= 0 {
+						tokLen = tr.Segs[tr.TokenSeg].End - tr.Segs[tr.TokenSeg].Start
+					}
+					over := c.wireCap > 0 && int64(pre) > c.wireCap
+					if over && c.compress {
+						// accept the reading "cap counts compressed wire bytes"
+						over = int64(len(tr.Resp.Wire)) > c.wireCap+int64(lastLen+tokLen+8)
+					}
+					verdicts = append(verdicts, fmt.Sprintf("r%d:data=%d:tok=%v:over=%v", i, len(tr.DataSegs), tr.TokenSeg >= 0, over))
+					if over {
+						sig := cls + ":overshoot-more-than-one-batch"
+						if c.limit > 0 {
+							sig += ":with-batch-limit"
+						}
+						x.Failf(sig, "%s: response %d holds %d data batches; %d body bytes precede the last one (cap %d, body %d bytes, wire %d bytes) — the response kept growing after the cap was passed",
+							d(), i, len(tr.DataSegs), pre, c.wireCap, len(tr.Resp.Body), len(tr.Resp.Wire))
+					}
 				}
-				continue
+				if !sawErr && !vfHSEq(refData, gotData) {
+					x.Failf(cls+":stream-incomplete", "%s: concatenated turns %v != full stream %v", d(), gotData, refData)
+				}
+				x.Outcome("%s|%s|%s|resp=%d|%s", c.kind, pat, capNames[ci], len(got), strings.Join(verdicts, ","))
+				return
 			}
-			mustErr := u-jitter > c.wireCap && w-wj > c.wireCap
-			mustDeliver := u+jitter <= c.wireCap && w+wj <= c.wireCap
-			if delivered {
-				if mustErr {
-					x.Failf(cls+":over-cap-delivered", "%s: turn %d: body would be %d bytes (%d on the wire) > cap %d but data was delivered", d(), i, u, w, c.wireCap)
+
+			// unary / exchange: hard cap
+			for i, tr := range got {
+				if i >= len(ref) {
+					break
 				}
-				if int64(len(tr.Resp.Wire)) > c.wireCap {
-					x.Failf(cls+":over-cap-delivered", "%s: turn %d: delivered %d wire bytes > cap %d", d(), i, len(tr.Resp.Wire), c.wireCap)
+				u := int64(len(ref[i].Resp.Body)) // what the body would be
+				w := int64(len(ref[i].Resp.Wire)) // ... on the wire (== u without compression)
+				wj := jitter
+				if c.compress {
+					wj = 2 * jitter
 				}
-				if !vfHSEq(tr.Data, ref[i].Data) {
-					x.Failf(cls+":delivered-data-differs", "%s: turn %d: %v vs uncapped %v", d(), i, tr.Data, ref[i].Data)
+				delivered := len(tr.Errs) == 0
+				verdicts = append(verdicts, fmt.Sprintf("t%d:delivered=%v", i, delivered))
+				if c.wireCap == 0 {
+					if !delivered {
+						x.Failf(cls+":error-without-cap", "%s: turn %d: %v", d(), i, tr.Errs)
+					}
+					continue
 				}
-			} else {
-				if mustDeliver {
-					x.Failf(cls+":within-cap-refused", "%s: turn %d: body is %d bytes <= cap %d but the response is an error %v", d(), i, u, c.wireCap, tr.Errs)
-				}
-				if len(tr.Data) > 0 {
-					x.Failf(cls+":error-with-data", "%s: turn %d: error response still carries data", d(), i)
-				}
-				if !strings.Contains(strings.Join(tr.Errs, " "), "max_response_bytes") && !mustDeliver {
-					x.Failf(cls+":error-not-cap-error", "%s: turn %d: %v", d(), i, tr.Errs)
+				mustErr := u-jitter > c.wireCap && w-wj > c.wireCap
+				mustDeliver := u+jitter <= c.wireCap && w+wj <= c.wireCap
+				if delivered {
+					if mustErr {
+						x.Failf(cls+":over-cap-delivered", "%s: turn %d: body would be %d bytes (%d on the wire) > cap %d but data was delivered", d(), i, u, w, c.wireCap)
+					}
+					if int64(len(tr.Resp.Wire)) > c.wireCap {
+						x.Failf(cls+":over-cap-delivered", "%s: turn %d: delivered %d wire bytes > cap %d", d(), i, len(tr.Resp.Wire), c.wireCap)
+					}
+					if !vfHSEq(tr.Data, ref[i].Data) {
+						x.Failf(cls+":delivered-data-differs", "%s: turn %d: %v vs uncapped %v", d(), i, tr.Data, ref[i].Data)
+					}
+				} else {
+					if mustDeliver {
+						x.Failf(cls+":within-cap-refused", "%s: turn %d: body is %d bytes <= cap %d but the response is an error %v", d(), i, u, c.wireCap, tr.Errs)
+					}
+					if len(tr.Data) > 0 {
+						x.Failf(cls+":error-with-data", "%s: turn %d: error response still carries data", d(), i)
+					}
+					if !strings.Contains(strings.Join(tr.Errs, " "), "max_response_bytes") && !mustDeliver {
+						x.Failf(cls+":error-not-cap-error", "%s: turn %d: %v", d(), i, tr.Errs)
+					}
 				}
 			}
+			x.Outcome("%s|%s|log=%d|%s|%s", c.kind, pat, c.logBytes, capNames[ci], strings.Join(verdicts, ","))
 		}
-		x.Outcome("%s|%s|%s|%s", c.kind, pat, capNames[ci], strings.Join(verdicts, ","))
-	})
+	}
+	venum.Explore(t, venum.Cfg{Name: "wire-cap", Shardable: true}, wireBody(wireCfgs, ""))
+	venum.Explore(t, venum.Cfg{Name: "wire-cap-with-external-storage", Shardable: true}, wireBody(wireExtCfgs, ":with-external-storage"))
 
 	// ------------------------------------------------------------------ external cap
 	venum.Explore(t, venum.Cfg{Name: "external-cap", Shardable: true}, func(x *venum.X) {
